@@ -284,6 +284,10 @@ def capture(world_label, confs, script):
             step(item)
     for ep in w.endpoints.values():
         if not ep.alive:
+            tb = ep.dead_reason[2] if len(ep.dead_reason) > 2 else ''
+            if ('message.py' in tb or 'crypto.py' in tb) and ep.dead_reason[0] not in ('Wedged',):
+                # an exception that is not a protocol error came out of the parser while AUTHENTIC traffic was processed
+                raise CaptureViolation(world_label, ep.name, ep.dead_reason)
             raise HarnessError('capture %s: endpoint %s died: %r' % (world_label, ep.name, ep.dead_reason))
     keyname = {}
     for d in w.sent_log:
@@ -338,6 +342,10 @@ def _cookie_flood(w, step):
     for d in list(w.net):
         if d.id != 0:
             step(('drop', d.id))
+
+
+class CaptureViolation(Exception):
+    pass
 
 
 def prepare():
@@ -699,6 +707,15 @@ def units():
 
 def replay(path):
     doc = jdec(json.load(open(path)))
+    if 'capture' in doc:
+        try:
+            prepare()
+        except CaptureViolation as ex:
+            print('reproduced:', ex.args[0], ex.args[1], ex.args[2][:2])
+            print('REPLAY reproduces a violation')
+            sys.exit(1)
+        print('REPLAY does not reproduce')
+        sys.exit(0)
     prepare()
     data, ho, ctx = doc['data'], bool(doc['header_only']), doc['context']
     if ctx != 'none' and ctx not in KEYS:
@@ -717,7 +734,17 @@ def main():
     global C_KEY
     if ck.args.replay:
         replay(ck.args.replay)
-    ncode = prepare()
+    try:
+        ncode = prepare()
+    except CaptureViolation as ex:
+        label, name, reason = ex.args
+        ck.violation('outcome:authentic-traffic:%s' % reason[0],
+                     'while the authentic exchanges of world %r were recorded, parsing a genuine datagram at %s raised %s: %s (%s)' % (
+                         label, name, reason[0], reason[1], (reason[2] if len(reason) > 2 else '')[-300:].replace('\n', ' | ')),
+                     dict(capture=label))
+        ck.coverage.update(evaluations=1, distinct_nontrivial=1, exhaustive=False, caps_hit=['recording of the authentic base '
+                           'messages failed: see the violation'], rule='nothing else was run')
+        ck.finish()
     C_KEY = [n for n in KEYS if n.startswith('main/')][0]
     us = units()
     random.Random(ck.seed).shuffle(us)        # the seed only permutes the order of the work units
